@@ -6,7 +6,7 @@ from concurrent.futures import ThreadPoolExecutor
 args = [a for a in sys.argv[1:] if not a.startswith("--")]
 allp = "--all-props" in sys.argv
 props_opt = [a.split("=", 1)[1].split(",") for a in sys.argv if a.startswith("--props=")]
-SEED = "/verif/seeded"
+SEED = os.environ.get("SEED_DIR", "/verif/seeded")
 avail = sorted(p[:-3].upper() for p in os.listdir("/verif/sa/props") if p.startswith("c") and p.endswith(".py"))
 def one(sid):
     d = os.path.join(SEED, sid)
